@@ -381,10 +381,9 @@ class FullTap(ns.Tap):
         super().__init__(sock)
         self.tap_in_full = []
 
-    def read_message(self):
-        cmd, m = super().read_message()
+    def _tap_record_in(self, cmd, m):
+        # under tap_cv, before tap_in grows (see ns.Tap): tap_in_full is never behind tap_in
         self.tap_in_full.append((cmd, m.asbytes()))
-        return cmd, m
 
 
 class ApiCall(threading.Thread):
